@@ -86,8 +86,9 @@ def run_check(d, prop, tier, seed, replay, t0):
     per_flavour = {}
     for fl in flavours:
         n = cases
-        if fl == "asan" and tier == "quick":
-            n = max(20, cases // 3)
+        if fl == "asan":
+            # ASan costs a factor of 3-5 per case
+            n = max(20, cases // 3) if tier == "quick" else cases // 2
         if fl == "rel" and prop not in ("C10", "C04", "C06"):
             n = max(20, cases // 2)
         results = d.spawn_workers(bins[fl], prop, tier, seed, n, fl, known_sigs, extra_env=(asan_env if fl == "asan" else None), current=(fl == "asan" or prop in CRASH_IS_VIOLATION))
